@@ -145,6 +145,10 @@ class Executor(CallMixin, EvalMixin, ExprMixin, StmtMixin):
             d = a[0]
             if isinstance(d.ty, T.Opt): d = SV(d.ty.t, T.opt_val(d.ty, d.t))
             return SV(T.Set(d.ty.k), T.dict_dom(d.ty, d.t))
+        if name == "is_perm":
+            return SV(T.Bool, z3.Or(self.is_perm(a[0].ty, a[0].t, a[1].t), a[0].t == a[1].t))
+        if name == "abs_real":
+            x = self.coerce(a[0], T.Real).t; return SV(T.Real, z3.If(x >= 0, x, -x))
         if name == "same_except":
             d1, d2 = a[0], a[1]
             kk = z3.Const("k!se%d" % (id(node) % 9973), T.sort_of(d1.ty.k))
@@ -268,7 +272,7 @@ class Executor(CallMixin, EvalMixin, ExprMixin, StmtMixin):
             st.env[n] = v
             self.current_inputs[n] = v
         for g, ty in c.ghost.items():
-            if g == "self_class": continue
+            if g in ("self_class", "__locals__"): continue
             v = SV(ty, fresh("ghost_" + g, ty)); self.assume_wf(st, v); st.env[g] = v
         if c.yields is not None:
             st.env["__yielded__"] = self.empty(T.List(c.yields))
@@ -288,7 +292,6 @@ class Executor(CallMixin, EvalMixin, ExprMixin, StmtMixin):
         self.number_loops(fnode, qual)
         for k, v in c.loops.items(): self.loop_specs[(qual, k)] = v
         self.declared_locals = dict(c.ghost.get("__locals__", {})) if isinstance(c.ghost.get("__locals__"), dict) else {}
-        c.ghost.pop("__locals__", None)
         st = self.initial_state(c, fnode, module, cls)
         # preconditions
         for r in c.requires:
